@@ -62,4 +62,26 @@ def obligations(seed, tier):
                 det.update(finite_difference=fd, from_gradient=an)
             obs.append(Ob(f"large n: {name} at n={n}, K={K}: score == reference, invariant under reordering, gradient matches central differences",
                           PROVED if ok else REFUTED, "native-float64", "B", {**det, "replayed": True}, fn="gemclus.gemini.evaluate"))
+    # many clusters: n * K^2 beyond 2^20 entries with n not a multiple of a power of two (block-wise evaluations of the (n, K, K) tensors);
+    # TV is piecewise linear, so central differences along a random tangent direction are exact unless a kink lies within h
+    n, K = 1100, 32
+    P = rs.dirichlet(np.ones(K) * 2.0, size=n)
+    for name in ("tv_ovo", "tv_ova", "hellinger_ovo"):
+        g = _str_to_gemini(name)
+        s, gr = g(P, None, return_grad=True)
+        want = ref_score(kinds[name.split("_")[0]], name.endswith("ovo"), P, None)
+        worst = 0.0
+        ok = abs(float(s) - want) <= 1e-8 * (1 + abs(want)) and gr.shape == P.shape
+        for _ in range(3):
+            V = rs.normal(size=(n, K))
+            V[:, rs.randint(K)] += 3.0          # a direction that moves the cluster proportions
+            V -= V.mean(1, keepdims=True)
+            h = 1e-7
+            fd = (float(g(P + h * V, None)) - float(g(P - h * V, None))) / (2 * h)
+            an = float((gr * V).sum())
+            worst = max(worst, abs(fd - an) / (1 + abs(fd) + abs(an)))
+        ok = ok and worst <= 2e-3
+        obs.append(Ob(f"many clusters: {name} at n={n}, K={K} (n*K^2 > 2^20): score == reference, gradient matches central differences along 3 tangent directions",
+                      PROVED if ok else REFUTED, "native-float64", "B", {"score": float(s), "reference": want, "worst relative gap": worst, "replayed": True},
+                      fn="gemclus.gemini.evaluate"))
     return obs
